@@ -349,11 +349,21 @@ func runC10(p *Program, r *Report) {
 		dy := mustForm(dstB, 0, 1).Sub(mustForm(srcB, 0, 1))
 
 		// S3 read + transform
-		var read, xform, pixoff, set *Event
+		var read, xform, pixoff, set, conv, tset *Event
 		extra := ""
 		for k := range cf.Calls {
 			ev := &cf.Calls[k]
 			switch {
+			case ev.Kind == "loop-invoke" && ev.Fn == "Convert" && strings.HasPrefix(valKey(ev.Recv), "color.") && strings.HasSuffix(valKey(ev.Recv), "Model"):
+				if conv != nil {
+					extra = "more than one colour-model conversion per pixel"
+				}
+				conv = ev
+			case strings.HasPrefix(ev.Fn, "(*image.") && strings.Contains(ev.Fn, ").Set"):
+				if tset != nil {
+					extra = "more than one typed Set per pixel"
+				}
+				tset = ev
 			case ev.Kind == "loop-invoke" && ev.Fn == "At", strings.HasSuffix(ev.Fn, ".RGBA64At"):
 				if read != nil {
 					extra = "more than one pixel read per iteration"
@@ -405,6 +415,32 @@ func runC10(p *Program, r *Report) {
 		chField := func(ch string) string { return "." + ch + "(" + opaqueKeyOfAgg(xform.Res) + ")" }
 		_ = resKey
 
+		if tset != nil {
+			// a typed arm: dst.SetT(x, y, color.TModel.Convert(c).(color.T)) is what (*image.T).Set(x, y, c)
+			// is defined to do (image package): the arm equals the generic dst.Set for that type
+			tname := ""
+			for _, c := range ws.Conds {
+				k := c.Key()
+				if strings.HasPrefix(k, "istype(dst,*image.") && strings.HasSuffix(k, ")") {
+					tname = strings.TrimSuffix(strings.TrimPrefix(k, "istype(dst,*image."), ")")
+				}
+			}
+			ra := realArgs(*tset)
+			good := tname != "" && tset.Fn == "(*image."+tname+").Set"+tname && conv != nil && valKey(conv.Recv) == "color."+tname+"Model" &&
+				len(ra) == 4 && valKey(ra[0]) == "dst" && len(cf.Stores) == 0 && pixoff == nil && set == nil
+			if good {
+				x, _ := ra[1].(*Form)
+				y, _ := ra[2].(*Form)
+				ca := realArgs(*conv)
+				good = x != nil && y != nil && x.Equal(j.Add(dx)) && y.Equal(i.Add(dy)) && len(ca) == 1 && valKey(ca[0]) == valKey(xform.Res) && valKey(ra[3]) == valKey(conv.Res)
+			}
+			r.Check(good, "C10.S2", key+" Set", ws.Pos, "the only write is dst.Set"+tname+"(j+dx, i+dy, color."+tname+"Model.Convert(transformColor(src.At(j,i)))) — the definition of dst.Set for this destination type", "typed arm does not write exactly dst.SetT(j+dx, i+dy, TModel.Convert(colour)) of its own destination type: "+trunc(valKey(Tuple(ra)), 200))
+			continue
+		}
+		if conv != nil {
+			r.Violate("C10.S3", key+" read", ws.Pos, "unexpected colour-model conversion in the worker")
+			continue
+		}
 		if set != nil {
 			hasDefault = true
 			ra := realArgs(*set)
